@@ -23,18 +23,19 @@ Proof. exact (init_store_defaults c). Qed.
 (* after every teleop or autonomous pass -- whatever its callbacks assigned and whichever
    of them raised (FMS attached) -- every will_reset_to attribute holds its default again,
    and the robot is still running *)
-Theorem C10_reset_after_enabled_iteration : forall m w, fms c = true -> enabled_mode m = true -> in_flight w = false ->
+Theorem C10_reset_after_enabled_iteration : forall m w, w_fms w = true -> enabled_mode m = true -> in_flight w = false ->
   let '(w', e) := denote c raises writes fbval (iteration c m) w in
   in_flight w' = false /\ forall ci a d, marked c ci a = Some d -> w_store w' ci a = d.
 Proof. exact (iteration_resets c raises writes fbval). Qed.
 
-(* the same for a pass that is [calm]: the FMS is attached, OR no callback of the pass
-   raises (the only passes that complete when the FMS is not attached) *)
+(* the same for every pass that completes: the FMS is attached when it starts, OR no callback
+   of the pass raises (the only passes that complete when the FMS is not attached) *)
 Theorem C10_reset_after_every_completed_iteration : forall m w,
-  calm c raises (iteration c m) w -> enabled_mode m = true -> in_flight w = false ->
+  (w_fms w = true \/ (forall i, (i < length (psites (iteration c m)))%nat -> raises (w_n w + i)%nat = false)) ->
+  enabled_mode m = true -> in_flight w = false ->
   let '(w', e) := denote c raises writes fbval (iteration c m) w in
   in_flight w' = false /\ forall ci a d, marked c ci a = Some d -> w_store w' ci a = d.
-Proof. exact (iteration_resets_calm c raises writes fbval). Qed.
+Proof. exact (fun m w H => iteration_resets_calm c raises writes fbval m w (calm_iteration_intro c raises m w H)). Qed.
 
 (* the reset comes after all execute() calls, the feedbacks and robotPeriodic *)
 Theorem C10_reset_is_last : exists before,
